@@ -14,6 +14,7 @@ from ..lib import call
 
 PROP = "C15"
 PLAN = {"quick": (480, 500), "thorough": (8000, 3600)}
+WITH_REPO_TESTS = True  # thorough tier also runs the repository's own suite under M1 / M3 / M4
 RULE = ("case = 2-3 initial curves (two of them built from the same KnotVector object, one a copy) + a program of 5-25 "
         "(quick) / up to 40 (thorough) symbolic public Curve operations, ~30% with invalid arguments (nodes outside, both "
         "end knots, excessive multiplicity, absent knots, impossible removal / reduction, wrong number of control points, "
